@@ -127,6 +127,7 @@ class Build:
         self.coq_ok = False
         self.driver_ok = False
         self.coq_errors = ""
+        self.gen_failed = {}
 
     def note(self, s):
         self.log.append(s)
@@ -146,9 +147,15 @@ def build_all():
             b.note("harness build failed:\n" + out[-4000:])
             return b
         st, out = sh("%s/vh gen" % BUILD, timeout=600)
-        b.gen_ok = st == 0
+        # status 3: some translators failed, the others wrote their tables; build/gen_failed.json says which
+        b.gen_ok = st in (0, 3)
+        b.gen_failed = {}
+        try:
+            b.gen_failed = json.load(open(os.path.join(BUILD, "gen_failed.json"))) if st == 3 else {}
+        except (OSError, ValueError):
+            b.gen_ok = st == 0
         b.note(out.strip())
-        if st != 0:
+        if not b.gen_ok:
             b.note("gen failed:\n" + out[-4000:])
             return b
         sh(os.path.join(ROOT, "tools/mkcoqproject.sh"))
@@ -281,7 +288,17 @@ def main():
     theorems, assum_text, failing = [], "", []
     if b.gen_ok:
         total, done, theorems, assum_text, failing = proof_status(pid)
-    proofs_ok = b.gen_ok and not failing and not gate and total > 0
+    # a translator that failed leaves a stale (or no) table: only the properties whose theorems consume it are affected
+    stale = []
+    if b.gen_ok and b.gen_failed:
+        deps = make_deps()
+        needed = set()
+        for f in PROPS[pid]["props_files"]:
+            needed.update(cone(f[:-2] + ".vo", deps))
+        for name, why in sorted(b.gen_failed.items()):
+            if name.startswith("?") or ("Gen/" + name[:-2] + ".vo") in needed or not os.path.exists(os.path.join(COQ, "Gen", name)):
+                stale.append("%s (%s)" % (name, why[:300]))
+    proofs_ok = b.gen_ok and not failing and not gate and total > 0 and not stale
 
     run = None
     harness_status = None
@@ -315,6 +332,8 @@ def main():
     elif not b.gen_ok:
         broken.append("the translator could not regenerate the Coq tables from /repo")
     if b.gen_ok and not proofs_ok:
+        if stale:
+            broken.append("the translator could not regenerate a table this property's theorems consume: " + "; ".join(stale))
         if gate:
             broken.append("forbidden vernacular in the development: " + "; ".join(gate[:5]))
         if failing:
